@@ -122,6 +122,8 @@ type ImmutableSpec struct {
 }
 
 type ContractSet struct {
+	MapRangeExempt map[string]string // function (short name) -> reason
+	GlobalWriters  map[string]string // "pkg.var <- writer" -> reason
 	Immutable []*ImmutableSpec
 	Ranges []*RangeSpec
 	GhostNames map[string]bool
@@ -196,7 +198,7 @@ func (cs *ContractSet) parseFile(p *packages.Package, f *ast.File, fname string)
 	var items []rawLine
 	for _, l := range lines {
 		w := firstWord(l.text)
-		if w == "func" || w == "functype" || w == "pred" || w == "frame" || w == "lemma" || w == "axiom" || w == "assume-range" || w == "immutable" || clauseKeywords[w] {
+		if w == "func" || w == "functype" || w == "pred" || w == "frame" || w == "lemma" || w == "axiom" || w == "assume-range" || w == "immutable" || w == "maprange-exempt" || w == "global-writer" || clauseKeywords[w] {
 			items = append(items, l)
 		} else if len(items) > 0 {
 			items[len(items)-1].text += " " + l.text
@@ -254,6 +256,25 @@ func (cs *ContractSet) parseFile(p *packages.Package, f *ast.File, fname string)
 			fs.PkgPath = p.PkgPath
 			fs.Text = rest
 			cs.Frames = append(cs.Frames, fs)
+		case "global-writer":
+			// global-writer pkg.var <- writer : reason
+			f := strings.SplitN(rest, ":", 2)
+			if cs.GlobalWriters == nil {
+				cs.GlobalWriters = map[string]string{}
+			}
+			reason := ""
+			if len(f) == 2 {
+				reason = strings.TrimSpace(f[1])
+			}
+			cs.GlobalWriters[strings.Join(strings.Fields(f[0]), " ")] = reason
+		case "maprange-exempt":
+			f := strings.SplitN(rest, " ", 2)
+			if len(f) == 2 {
+				if cs.MapRangeExempt == nil {
+					cs.MapRangeExempt = map[string]string{}
+				}
+				cs.MapRangeExempt[f[0]] = f[1]
+			}
 		case "immutable":
 			// immutable Type.field [property ...]: written only while its object is fresh
 			f := strings.Fields(rest)
